@@ -483,16 +483,20 @@ def _configs_for(solver):
             add(WE, SC, secant='raise', **ideal)
             add(WEM, 's*(0.2,0,0.8)', **ideal)
         if tier == 'thorough':
-            add(WE, '++', k=1, phi='ideal'); add(WE, '++', secant='raise', k=1, **ideal)
+            # every guard outcome of dew_point.py is explored on the '+'/'?' patterns (40-70 paths per configuration with a
+            # single residual evaluation); configurations with several evaluations use the s*(..) pattern for the dew point
+            multi = '++' if kind == 'bubble' else SC
+            add(WE, multi, k=1, phi='ideal'); add(WE, multi, secant='raise', k=1, **ideal)
             add(WE, '??', **ideal); add(WE, '?+', gamma='ideal', pcf='mock'); add(WE, '+?', **ideal)
             for gm, ph, pc in (('ideal', 'stub', 'mock'), ('ideal', 'ideal', 'stub'), ('stub', 'stub', 'mock'), ('stub', 'ideal', 'stub'),
                                ('ideal', 'stub', 'stub'), ('stub', 'stub', 'stub')):
                 add(WE, '++', gamma=gm, phi=ph, pcf=pc)
             add(WE, SC, secant='raise', phi='ideal', pcf='mock'); add(WE, SC, secant='raise'); add(WE, SC, k=1, phi='ideal', pcf='mock')
-            add(WEM, '+++', **ideal); add(WEM, '+0+', phi='ideal'); add(WEM, 's*(0.2,0.3,0.5)', phi='ideal', pcf='mock')
-            add(WEM, '++?', **ideal)
+            add(WE, SC); add(WE, SC, via='call')
+            add(WEM, '+0+', phi='ideal'); add(WEM, 's*(0.2,0.3,0.5)', phi='ideal', pcf='mock'); add(WEM, 's*(0.2,0.3,0.5)')
             add(('Methanol', 'Water', 'Ethanol'), 's*(0.5,0.25,0.25)')
             if kind == 'bubble':
+                add(WEM, '+++', **ideal); add(WEM, '++?', **ideal)
                 add(WE, '++', secant='raise'); add(WEM, '+++'); add(WEM, '+++', secant='raise', phi='ideal'); add(WEM, '?0?', phi='ideal', pcf='mock')
         seen = set(); uniq = []
         for c in out:
@@ -593,7 +597,7 @@ def relation_configs(tier):
             add(solver, 'scale', IDs=WEM, pat='+0+' if bubble else 's*(0.2,0,0.8)')
             if not bubble:
                 add(solver, 'scale', pat=SC, gamma='stub'); add(solver, 'perm', pat=SC, gamma='stub', perm=[1, 0]); add(solver, 'inverse', pat=SC, gamma='stub')
-                add(solver, 'scale'); add(solver, 'inverse')
+                add(solver, 'scale')            # free composition: every guard outcome, in both calls
             else:
                 add(solver, 'scale', gamma='stub', phi='stub', pcf='stub')
     return out
